@@ -82,7 +82,20 @@ CLAIMS = {
        "computed with arbitrary-precision/IEEE arithmetic and TLC validates return code and every element.",
   note="Values whose representability is debatable (2^63, 2^64 as double) are excluded from reads that would depend on them.",
   tech="TLA+ spec Convert.tla: TLC check of the rule over all class combinations + TLC trace validation of every conversion performed by the library"),
+ "C10": dict(
+  spec="Config.tla + Config_MC.tla + Trace_Config.tla, and Data.tla / MP.tla / File.tla with their trace specs",
+  text="Config.tla states the property relationally: the outcome of step k of a program is a function of (program, k) alone (action "
+       "property Stable, checked by TLC). Programs generated by TLC from Access_MC, Nonblock_MC, MP_MC and File_MC are each executed under "
+       "every configuration of a matrix (packing-buffer size, in-place swap on/off, safe mode, PNETCDF_HINTS environment form, name hash "
+       "sizes 1/3/4096, header chunk hint, alignment hints, intra-node aggregation with 1-2 aggregators, 1-4 processes with the work divided "
+       "differently). Every trace is validated by TLC against the configuration-free family specification (data read, logical file "
+       "content, error codes), and for each (program, process count) the projected outcomes under all configurations are validated against "
+       "Config.tla (return codes, statuses, ids, counts, schema must coincide).",
+  note="One node (aggregation groups = ranks of the job); read buffers and variable data are compared with the model per configuration, not "
+       "across configurations (never-written elements are undefined); effective-hint reporting is not checked.",
+  tech="TLA+ specs Config.tla (cross-configuration stability) + Data/MP/File.tla: TLC-generated programs replayed under a configuration matrix + TLC trace validation"),
  "C11": dict(
+  cat="fault_enumeration",
   spec="Fault.tla + Fault_MC.tla + Trace_Fault.tla",
   text="Fault.tla: one armed failure (rank, transfer position, MPI error class); the step in which it fires must return an error on that "
        "rank (or the completing wait must). Enumeration: every MPI-IO data-transfer position observed in a fault-free run of each of the "
@@ -134,7 +147,6 @@ CLAIMS = {
 
 NA = {
  "C04": "check not built yet: the encoder for specification-valid foreign layouts exists (harness/cdfdecode.py encode) but no spec-bound check is registered",
- "C10": "check not built yet (planned: same File/Data behaviours replayed under each hint/process-count configuration, traces compared by TLC)",
  "C12": "check not built yet (planned: Data/MP behaviours replayed with the burst-buffer driver, Trace_MP visibility rules)",
  "C18": "check not built yet (planned: Limits spec of the per-format size rules; needs sparse multi-GiB files)",
  "C19": "memory safety is not a property of the abstract state a TLA+ specification describes; planned as the sanitizer build running the behaviours generated for the other properties plus mutated files (see DESIGN.md section 9)",
